@@ -80,3 +80,32 @@ def m_regex_is_match(ctx, args, callee):
     if key not in tbl:
         tbl[key] = ctx.fresh_bool('is_match')
     return tbl[key]
+
+
+# ------------------------------------------------------------------------------------------------ std::time::Duration
+class DurationV:
+    __slots__ = ('secs',)
+
+    def __init__(self, secs):
+        self.secs = secs
+
+
+@model(r'^(std::time::|core::time::)?Duration::from_secs$|^(std::time::|core::time::)?Duration::from_millis$')
+def m_duration_from_secs(ctx, args, callee):
+    return DurationV(args[0])
+
+
+@model(r'^(std::time::|core::time::)?Duration::from_secs_f64$|^(std::time::|core::time::)?Duration::from_secs_f32$')
+def m_duration_from_secs_f(ctx, args, callee):
+    """documented: panics if the value is negative, not finite or overflows Duration"""
+    x = args[0]
+    lim = z3.FPVal(18446744073709551616.0, x.sort())
+    ctx.obligation(z3.And(z3.Not(z3.fpIsNaN(x)), z3.Not(z3.fpIsInf(x)), z3.fpGEQ(x, z3.FPVal(0.0, x.sort())), z3.fpLT(x, lim)),
+                   'cannot convert float seconds to Duration: value is negative, not finite or too large')
+    return DurationV(x)
+
+
+@model(r'to_human_time_string$|to_human_time_string_with_format$')
+def m_human_time(ctx, args, callee):
+    from .models_fmt import OpaqueStr
+    return OpaqueStr('human_time(%r)' % (ctx.deref(args[0]),))
